@@ -345,7 +345,7 @@ func main() {
 		if !witness {
 			suffix = " no-failing-input-found"
 		}
-		fmt.Printf("FAILED %s (%d of %d paths) [%s] %s :: %s\n", n, len(a.failed), a.total, o.Res.Status, o.Pos, o.Text)
+		fmt.Printf("FAILED %s (%d of %d paths) [%s %s] %s :: %s\n", n, len(a.failed), a.total, o.Res.Status, firstWord(o.Res.Output), o.Pos, o.Text)
 		if len(o.Res.Model) > 0 {
 			fmt.Printf("       model: %v\n", o.Res.Model)
 		}
@@ -466,6 +466,14 @@ func qsize(po *PreparedObl) int {
 		n += len(q.Text)
 	}
 	return n
+}
+
+func firstWord(s string) string {
+	f := strings.Fields(s)
+	if len(f) > 0 && strings.HasPrefix(f[0], "[") {
+		return f[0]
+	}
+	return ""
 }
 
 func round2(f float64) float64 { return float64(int(f*100+0.5)) / 100 }
